@@ -159,6 +159,16 @@ impl C13 {
                 let line = 1 + pre.matches('\n').count() as u32;
                 (format!("{}{}{}{}", pre, f, if nl { "\n" } else { "" }, suf), line, f.to_string())
             }
+            4 => {
+                // far lines: the fault sits on line 255..65537
+                let ks = [254usize, 255, 256, 65535, 65536];
+                let nf = FAULTS.len() as u64;
+                let k = ks[(idx / (2 * nf)) as usize];
+                let kind = (idx / nf) % 2;
+                let f = FAULTS[(idx % nf) as usize];
+                let pre = if kind == 0 { "\n".repeat(k) } else { format!("({})\n", "\n".repeat(k - 1)) };
+                (format!("{}{}\nsay 9\n", pre, f), k as u32 + 1, f.to_string())
+            }
             3 => {
                 let c = (idx / MULTILINE_FAULTS.len() as u64) as usize;
                 let (f, off) = MULTILINE_FAULTS[(idx % MULTILINE_FAULTS.len() as u64) as usize];
@@ -199,10 +209,15 @@ impl Check for C13 {
             ("shapes x statement position x faults".into(), *self.stmt_prefix.last().unwrap()),
             ("shapes x header x header faults".into(), *self.header_prefix.last().unwrap()),
             ("contexts x two-line faults".into(), (CONTEXTS.len() * MULTILINE_FAULTS.len()) as u64),
+            ("far lines x faults".into(), (5 * 2 * FAULTS.len()) as u64),
         ]
     }
     fn describe(&self, fam: usize, idx: u64) -> Value {
         let (text, line, f) = self.case(fam, idx);
+        if text.len() > 600 {
+            let n = text.chars().count();
+            return json!({"text": format!("…({} bytes, {} line breaks)…{}", text.len(), text.matches('\n').count(), text.chars().skip(n - 60).collect::<String>()), "fault": f, "expected_line": line});
+        }
         json!({"text": text, "fault": f, "expected_line": line})
     }
     fn run_case(&self, fam: usize, idx: u64, ctx: &mut Ctx) {
